@@ -43,6 +43,7 @@ func (s *RecSender) add(p any) int {
 }
 
 func (s *RecSender) Send(ctx context.Context, t el.EventType, payload interface{}) (el.Status, error) {
+	vrt.Point("inside Sender.Send")
 	k := s.add(payload)
 	if s.FailAt == k {
 		return el.Status{}, ErrSend
@@ -160,6 +161,7 @@ type rawResult struct {
 	id    string
 	flush bool
 	seq   int
+	inFP  string // nongate: what the event looked like before Process
 }
 
 func (g *GateInst) applyRaw(op string) rawResult {
@@ -180,12 +182,14 @@ func (g *GateInst) applyRaw(op string) rawResult {
 		r.in = &el.Event{Type: "t", Payload: &GP{ID: r.id, Flush: r.flush, Seq: g.seq, Rec: g.Rec}}
 		r.out, r.err = g.F.Process(ctx, r.in)
 	case "nongate":
+		// (no creation time, no format table: whatever the event looks like, it passes through as it is)
 		r.in = &el.Event{Type: "t", Payload: "plain"}
+		r.inFP = fingerprint(r.in)
 		r.out, r.err = g.F.Process(ctx, r.in)
 	case "emptyid":
 		g.seq++
 		r.seq = g.seq
-		r.in = &el.Event{Type: "t", Payload: &GP{ID: "", Seq: g.seq, Rec: g.Rec}}
+		r.in = &el.Event{Type: "t", Payload: &GP{ID: "", Seq: g.seq, Flush: len(f) > 1 && f[1] == "flush", Rec: g.Rec}}
 		r.out, r.err = g.F.Process(ctx, r.in)
 	case "tick":
 		g.Clk.Advance(time.Millisecond)
@@ -236,6 +240,9 @@ func (g *GateInst) Apply(op string) (string, string) {
 	case "nongate":
 		if r.err != nil || r.out != r.in {
 			return bad("a non-Gateable event must pass through unchanged: got (%p, %v) for input %p", r.out, r.err, r.in)
+		}
+		if fp := fingerprint(r.out); fp != r.inFP {
+			return bad("a non-Gateable event must pass through unchanged: it was {%s}, it is {%s}", r.inFP, fp)
 		}
 	case "emptyid":
 		if r.err == nil {
@@ -393,14 +400,16 @@ func (g *GateInst) Apply(op string) (string, string) {
 		return bad("%s returned nil but %d group(s) remain gated and were not handed to composition: %v (held before: %d)", r.kind, len(g.groups), left, len(before))
 	}
 	// ---- C17: no lingering ----
-	if g.C17 && !failureFired {
-		if sweeping && r.err == nil {
-			for _, gr := range g.groups {
-				if expired(gr) {
-					return bad("after a successful Process at T the group of id %q (events %v) opened %v before T is still gated although it expired (Expiration %v)", gr.id, gr.seqs, time.Duration(now-gr.openAt), gateExpiration)
-				}
+	// "after any successful Process call at T": a call that reports success has nothing expired left
+	// behind, whether or not a composition or the Broker failed on the way (if one did, success is the lie)
+	if g.C17 && sweeping && r.err == nil {
+		for _, gr := range g.groups {
+			if expired(gr) {
+				return bad("after a successful Process at T the group of id %q (events %v) opened %v before T is still gated although it expired (Expiration %v)", gr.id, gr.seqs, time.Duration(now-gr.openAt), gateExpiration)
 			}
 		}
+	}
+	if g.C17 && !failureFired {
 		// expired groups are emitted oldest first: the compositions of a sweeping step (other than the own
 		// flush) follow opening order. (FlushAll / Close only promise "each exactly once".)
 		last := int64(-1)
